@@ -19,7 +19,7 @@ def digestRats (xs : List Rat) : String :=
 private def parseInts (s : String) : Array Int :=
   (s.splitOn ",").foldl (fun acc t => match t.toInt? with | some v => acc.push v | none => acc) #[]
 
-def ratGt (x y : Rat) : Bool := decide (y.abs < x.abs)
+private def ratGt (x y : Rat) : Bool := decide (y.abs < x.abs)
 
 def entries (n : Nat) (X : Mat Rat) : List Rat :=
   (List.range (n * n)).map fun k => X (k / n) (k % n)
